@@ -399,6 +399,7 @@ func (fc *c12Conn) send(payload []byte) error {
 	if fc.mute {
 		return nil
 	}
+	fc.c.SetWriteDeadline(time.Now().Add(5 * time.Second)) // a client that stopped reading must not block the server
 	fc.tx.XORKeyStream(b, b)
 	_, err = fc.c.Write(b)
 	return err
@@ -585,6 +586,53 @@ func c12Nonce() []byte {
 
 // ---- client under test ----
 
+// c12Watch runs f under a watchdog: hooks and accessors that take one of the client's
+// locks must not freeze the harness when the client has wedged itself
+func c12Watch[T any](f func() T) (v T, ok bool) {
+	ch := make(chan T, 1)
+	go func() { ch <- f() }()
+	select {
+	case v = <-ch:
+		return v, true
+	case <-time.After(2 * time.Second):
+		return v, false
+	}
+}
+
+var c12StuckClients sync.Map // *liteclient.Client -> true: its registry lock never came back
+
+// registry size, -1 when Client.queriesMutex is stuck
+func c12RegSize(cl *liteclient.Client) int {
+	if _, stuck := c12StuckClients.Load(cl); stuck {
+		return -1
+	}
+	n, ok := c12Watch(func() int { return cl.VerifRegistrySize() })
+	if !ok {
+		c12StuckClients.Store(cl, true)
+		return -1
+	}
+	return n
+}
+
+func c12Registered(cl *liteclient.Client, id [32]byte) bool {
+	if _, stuck := c12StuckClients.Load(cl); stuck {
+		return false
+	}
+	r, ok := c12Watch(func() bool { return cl.VerifC12Registered(id) })
+	if !ok {
+		c12StuckClients.Store(cl, true)
+		return false
+	}
+	return r
+}
+
+func c12Stuck(cl *liteclient.Client) bool {
+	_, stuck := c12StuckClients.Load(cl)
+	return stuck
+}
+
+const c12StuckWhat = "Client.queriesMutex is never released: a hook that takes it did not return within 2 s; every call blocks in registerCallback / unregisterCallback"
+
 type c12Env struct {
 	srv   *c12Server
 	conns []*liteclient.Connection
@@ -761,6 +809,7 @@ func (c *c12Call) class() int {
 type c12Fail struct{ key, what string }
 
 type c12ScriptRes struct {
+	hang  bool // the client is wedged: repeating with a longer deadline is pointless
 	out   sx.V
 	slow  bool
 	fails []c12Fail
@@ -816,8 +865,20 @@ func runC12Script(in sx.V, D time.Duration) (r c12ScriptRes) {
 		return bad("env: " + err.Error())
 	}
 	defer e.close()
+	defer func() {
+		if c12Stuck(e.cl) {
+			r.hang = true
+			for _, f := range r.fails {
+				if f.key == "registry-lock-stuck" {
+					return
+				}
+			}
+			r.fails = append(r.fails, c12Fail{"registry-lock-stuck", c12StuckWhat})
+		}
+	}()
 	calls := make([]*c12Call, ncalls)
 	ids := make([][32]byte, ncalls)
+	var stuckUntil time.Time
 	finished := make([]bool, ncalls) // returned in an earlier 'finish
 	own := make([]map[uint64]bool, ncalls)
 	for i := range own {
@@ -858,8 +919,12 @@ func runC12Script(in sx.V, D time.Duration) (r c12ScriptRes) {
 					if ok {
 						ids[i] = q.id
 					}
-					return ok || c.returned()
+					return ok || c.returned() || c12Stuck(e.cl)
 				})
+				if c12Stuck(e.cl) {
+					r.out = sx.A("registry-lock-stuck") // later calls block in registerCallback
+					return r
+				}
 				if _, got := e.srv.query(c.key); !ok || !got {
 					if c.returned() {
 						r.slow = true // the deadline passed before the server goroutine ran
@@ -888,13 +953,13 @@ func runC12Script(in sx.V, D time.Duration) (r c12ScriptRes) {
 			} else {
 				pl = c12Malformed(ids[i], a[2].I())
 			}
-			wasReg := e.cl.VerifC12Registered(ids[i])
+			wasReg := c12Registered(e.cl, ids[i])
 			if err := e.srv.emit(k, pl); err != nil {
 				return bad("emit: " + err.Error())
 			}
 			if wasReg {
 				// wait until the reader has taken the entry out of the registry
-				if !c12Wait(5*time.Second, func() bool { return !e.cl.VerifC12Registered(ids[i]) }) {
+				if !c12Wait(5*time.Second, func() bool { return !c12Registered(e.cl, ids[i]) }) {
 					fail("reader-stalled", fmt.Sprintf("packet for the registered call %d on connection %d not processed within 5 s", i, k))
 					r.out = sx.A("reader-stalled")
 					return r
@@ -934,7 +999,7 @@ func runC12Script(in sx.V, D time.Duration) (r c12ScriptRes) {
 			e.srv.drop(a[0].I(), a[1].I() == 1)
 			dropped[a[0].I()] = true
 		case "reg":
-			regs = append(regs, sx.Nat(e.cl.VerifRegistrySize()))
+			regs = append(regs, sx.Nat(c12RegSize(e.cl)))
 		case "cancel": // the caller cancels the context of a waiting, unanswered call
 			c := calls[a[0].I()]
 			if c == nil || c.cancel == nil {
@@ -946,6 +1011,9 @@ func runC12Script(in sx.V, D time.Duration) (r c12ScriptRes) {
 			}
 			c.cancelled = time.Now()
 			c.cancel()
+			if c12Stuck(e.cl) {
+				break
+			}
 			if !c.wait(2 * time.Second) {
 				fail("cancel-ignored", fmt.Sprintf("call %d has not returned 2 s after its context was cancelled", a[0].I()))
 			}
@@ -958,7 +1026,16 @@ func runC12Script(in sx.V, D time.Duration) (r c12ScriptRes) {
 					continue
 				}
 				left := time.Until(c.start.Add(c.deff(D) + c12Hang))
+				if c12Stuck(e.cl) { // the client is wedged: nothing will return any more; 300 ms for all of them
+					if stuckUntil.IsZero() {
+						stuckUntil = time.Now().Add(300 * time.Millisecond)
+					}
+					if l := time.Until(stuckUntil); l < left {
+						left = l
+					}
+				}
 				if !c.wait(left) {
+					r.hang = true
 					fail("call-hangs", fmt.Sprintf("call %d (caller context %d) has not returned %v after its deadline of %v", i, c.ctxMode, c12Hang, c.deff(D)))
 				}
 			}
@@ -996,8 +1073,11 @@ func runC12Script(in sx.V, D time.Duration) (r c12ScriptRes) {
 			fail("late-return", fmt.Sprintf("call %d returned after %v, deadline %v", i, c.dur, D))
 		}
 	}
-	if n := e.cl.VerifRegistrySize(); n != 0 {
+	if n := c12RegSize(e.cl); n > 0 {
 		fail("registry-leak", fmt.Sprintf("%d entries left in the registry after all calls returned", n))
+	}
+	if c12Stuck(e.cl) {
+		fail("registry-lock-stuck", c12StuckWhat)
 	}
 	r.out = sx.L(sx.L(outs...), sx.L(regs...))
 	return r
@@ -1009,7 +1089,7 @@ func c12ScriptRobust(in sx.V, D time.Duration) c12ScriptRes {
 	var r c12ScriptRes
 	for try := 0; try < 6; try++ {
 		r = runC12Script(in, D)
-		if !r.slow {
+		if !r.slow || r.hang {
 			return r
 		}
 		D *= 2
